@@ -4,7 +4,9 @@ C09 — Headers survive serialisation.
 Only property theorems and non-vacuity examples live here; helper lemmas are in
 `Proofs/Header.lean` and `Proofs/HeaderTables.lean`.  Statements are about the models
 `Header.lean` / `HeaderTables.lean`; `pi` is any pixel-info detection (`PixelInfo::from_header`),
-the pinned one is `pixelInfoOf`.
+the modelled one is `pixelInfoOf`. The rows of the format tables are translated from the source on every run
+(`SrcTables.lean`), so the table theorems here (`dxgi_table_complete`, `dx_conversion_*`, `constructed_wf`) are
+re-checked for the rows the code has now.
 -/
 import DdsModel.Proofs.Header
 import DdsModel.Proofs.HeaderTables
@@ -216,15 +218,22 @@ example : ∃ h', (Header.dx9 (Dx9Header.new .image 4 4 0 (.fourCC FOURCC_DXT5))
 
 /-! ### DX9 <-> DX10 -/
 
-/-- The pinned DXGI table has exactly the codes `DxgiFormat::try_from` accepts (162 of them). -/
+/-- The DXGI table is consistent with `DxgiFormat::try_from`: the named constants (`define_dxgi_formats!`, rows
+translated from the source on every run) are exactly the accepted codes, every constant names a different code, and
+every accepted code fits the `u8` behind `DxgiFormat` (`value as u8` does not truncate). No row count is pinned:
+adding a named, accepted code re-proves this; a named constant that `try_from` rejects (or an accepted code without
+a name) fails it. -/
 theorem dxgi_table_complete :
-    (∀ c, c < 256 → (dxgiValid c = (dxgiRow? c).isSome)) ∧ dxgiRows.length = 162 ∧
-    (∀ c, dxgiValid c = true → c < 192) := by
+    (∀ c, c < 256 → (dxgiValid c = (dxgiRow? c).isSome)) ∧ (dxgiRows.map (·.code)).Nodup ∧
+    (∀ c, dxgiValid c = true → c < 256) := by
   refine ⟨fun c hc => ?_, by decide +kernel, fun c h => dxgiValid_lt h⟩
   have hall : ((List.range 256).all fun c => dxgiValid c == (dxgiRow? c).isSome) = true := by
     decide +kernel
   rw [List.all_eq_true] at hall
   simpa using hall c (List.mem_range.mpr hc)
+
+-- the table is not empty and not trivial: 28 = R8G8B8A8_UNORM is a named, accepted code; 116 is neither
+example : dxgiValid 28 = true ∧ (dxgiRow? 28).isSome = true ∧ dxgiValid 116 = false := by decide
 
 /-- `to_dx9`, when it exists, keeps width, height, depth and mip count, the pixel info
 (`PixelInfo::from_header`, i.e. the bytes-per-pixel / block shape) and — for 2D textures, cube
